@@ -623,6 +623,27 @@ example : applyTx env cfg st ⟨send mallory 5, some (.single .secp256k1 kA), "s
     applyTx env cfg st ⟨send bob 50, some (.single .secp256k1 kA), "sigA"⟩ [] = .error eInvalidSignature := by decide
 
 namespace Demo
+def kS : Bytes := [0xC]
+def valAddr : Addr := List.replicate 20 4
+/-- a delegate stake for the secp256k1 key `kS` with Alice as output address, signed by Alice -/
+def stakeMsg (wire : Bool) : Msg :=
+  { kind := .stake, pk := some (.single .secp256k1 kS), out := alice, amt := 40, delegate := true, wireSigner := wire, rest := "m3" }
+def stake (wire : Bool) : Content :=
+  { messageType := "stake", msg := some (stakeMsg wire), time := 7, createdHeight := 1, fee := 10, memo := "",
+    networkId := 1, chainId := 1, nonce := 0 }
+def senv : Env :=
+  { addrs := [(kA, alice), (kS, valAddr)], signed := [(kA, stake false, "sigS"), (kA, stake true, "sigW")] }
+end Demo
+
+open Demo in
+/-- stake signed by the output address: fee and stake are debited from the verified signer (Alice),
+the validator is created at the address of the staked key; the same message carrying a `Signer` on the
+wire is refused before any signature is looked at -/
+example : applyTx senv cfg st ⟨stake false, some (.single .secp256k1 kA), "sigS"⟩ [] =
+      .ok (alice, [.debit alice 10, .pool 1 10, .debit alice 40, .sys "supply", .sys "delegate", .valNew valAddr alice 40]) ∧
+    applyTx senv cfg st ⟨stake true, some (.single .secp256k1 kA), "sigW"⟩ [] = .error eNotEmpty := by decide
+
+namespace Demo
 def m1 : Bytes := [1]
 def m2 : Bytes := [2]
 def m3 : Bytes := [3]
